@@ -45,7 +45,9 @@ RULE = (
     "neither-early-nor-late stopping predicate, plain-vs-shortcut differential. A case is non-trivial when >=3 "
     "centers are chosen beyond the initial ones or the radius criterion stops the run although n_clusters was "
     "also given (shortcut clauses: additionally the reference replay shows that the shortcut really skipped at "
-    "least one frame); distinct = distinct canonical JSON of the case. Thorough additionally enumerates every "
+    "least one frame); distinct = distinct canonical JSON of the case. Every run is watched through the per-center "
+    "log record of kcenters: more added centers than frames aborts the case (count-bounded guard against a run "
+    "that would never terminate). Thorough additionally enumerates every "
     "ordering of every <=4-subset of the 1-D lattice {0..5} x n_clusters x half-integer cutoffs x cold/warm x "
     "shortcut for the stopping clause.")
 ASSUMPTIONS = [
@@ -331,7 +333,9 @@ def kc_case(draw, max_small=14, max_bulk=40, bulk_share=4, init_kinds=("none", "
     bulk = (max_bulk > max_small and metric != "hamming"
             and draw(st.integers(0, bulk_share - 1)) == bulk_share - 1)
     if bulk:
-        sites = _bulk_sites(draw(st.integers(0, 2 ** 31 - 1)), draw(st.integers(1, max_bulk)), d)
+        bmin = draw(st.sampled_from([1, 3, 10, 40]))
+        sites = _bulk_sites(draw(st.integers(0, 2 ** 31 - 1)),
+                            draw(st.integers(min(bmin, max_bulk), max_bulk)), d)
     else:
         nmin = draw(st.sampled_from([1, 2, 4, 6, 8]))         # keeps single-frame data sets rare but reachable
         sites = np.array(draw(st.lists(site, min_size=min(nmin, max_small), max_size=max_small, unique=True)),
@@ -376,7 +380,7 @@ def kc_case(draw, max_small=14, max_bulk=40, bulk_share=4, init_kinds=("none", "
     # ---- stopping criteria, aimed at the reference greedy sequence
     scale = R.scale_of(D, init_cols)
     mingap = mingap_of(dtype, scale)
-    order, radii = R.greedy(D, init_cols)          # radii[j], j = m0 .. jmax
+    _, radii = R.greedy(D, init_cols)              # radii[j], j = m0 .. jmax
     jmax = len(radii) - 1
     vals = D.ravel() if init_cols is None else np.concatenate([D.ravel(), init_cols.ravel()])
     mids = R.safe_midpoints(vals, mingap)
@@ -396,7 +400,8 @@ def kc_case(draw, max_small=14, max_bulk=40, bulk_share=4, init_kinds=("none", "
         if how in ("count", "both", "count_other_late"):
             n_clusters = draw(st.integers(1, m0))
         if how in ("radius", "both", "radius_other_late"):
-            cutoff = above if radii[m0] > 0 or draw(st.booleans()) else None
+            ups = [c for c in mids if c > radii[m0]][:1]          # the closest safe value above the initial radius
+            cutoff = draw(st.sampled_from(ups + [above])) if radii[m0] > 0 or draw(st.booleans()) else None
             if cutoff is None and n_clusters is None:
                 n_clusters = draw(st.integers(m0 + 1, n + 1))     # radius already 0: default cutoff 0 is met
         if how == "count_other_late" and targets:
@@ -716,8 +721,14 @@ def _is_unbound_center_inds(case, exc):
 
 
 def _is_offdata_shortcut(case, exc):
-    return (isinstance(exc, Violation) and str(exc).startswith("shortcut returns different")
-            and case.get("init") is not None and case["init"]["kind"] == "points")
+    """use_triangle_inequality=True together with initial centers that are not frames of the data: the shortcut
+    measures center-to-center distances from traj[center_inds] (the nearest frame) instead of the center itself,
+    so it returns other labels/distances than the plain run, or never terminates."""
+    if case.get("init") is None or case["init"]["kind"] != "points":
+        return False
+    if isinstance(exc, Runaway):
+        return True
+    return isinstance(exc, Violation) and str(exc).startswith("shortcut returns different")
 
 
 MATCHERS = {
